@@ -524,7 +524,7 @@ class MRQ(LossCase):
     def build(self, seed):
         enc = zoo.encoder_policy(D, A, seed).encoder
         enc_t = zoo.encoder_policy(D, A, seed + 11).encoder
-        return (zoo.double_q(1, 1, (2,), seed, ln=True), zoo.double_q(1, 1, (2,), seed + 5, ln=True), enc, enc_t)
+        return (zoo.mrq_q(seed), zoo.mrq_q(seed + 5), enc, enc_t)
 
     def data(self, B, rng):
         obs, act, _, nobs, _ = batch_data(B, rng, False)
@@ -627,7 +627,7 @@ class SALEEmbedding(LossCase):
 
 H_ENC = 2
 N_BINS = 3
-ZS = 2
+ZS = zoo.W
 
 
 class EncoderLoss(LossCase):
